@@ -1,15 +1,25 @@
 """C16 — a time value denotes the same instant on every path."""
-import datetime
+import datetime, json
 from vlib import hx
 from props import base
 
 PROP = "C16"
 PROPS_V = "theories/Props/C16.v"
-THEOREMS = ["C16_unit_spellings_agree", "C16_out_of_range_rejected"]
+THEOREMS = ["C16_unit_spellings_agree", "C16_out_of_range_rejected",
+            "C16_civil_roundtrip", "C16_civil_from_days_valid", "C16_civil_of_days_from_civil",
+            "C16_parse_print_rfc3339_gen", "C16_parse_print_rfc3339",
+            "C16_iso_spellings_agree", "C16_iso_string_agree", "C16_iso_and_integer_agree",
+            "C16_parse_print_date", "C16_date_string_agree",
+            "C16_sites_agree", "C16_sites_agree_nonneg", "C16_u64_fallback_wraps_negative",
+            "C16_prune_sound_outside_known", "C16_prune_sound_literal", "C16_prune_sound_after_fix", "C16_prune_refuted",
+            "C16_decimal_string_is_integer", "C16_all_string_spellings_agree"]
 RULE = ("instants (whole second t in year 1..9999 or a digit-band edge, plus a sub-second part) x spellings "
         "(RFC 3339 with random offset/fraction/separator, date-only at midnight, integer s/ms/us/ns as string "
         "and as JSON number, JSON float seconds) plus a malformed stream (mutated spellings); a case is "
-        "non-trivial when the implementation accepted it, distinct by (spelling kind, resulting second)")
+        "non-trivial when the implementation accepted it, distinct by (spelling kind, resulting second); "
+        "call sites: every spelling through payload normaliser / WHERE rows / SINCE rows / planner literal rewriting / "
+        "zone pruner (tsite_all, tsite_payload|where|filter|since|matspec) and (operator x literal x zones of stamps "
+        "around the literal, the epoch and 2^32) through the real TemporalIndexBuilder + TemporalPruner (tsite_prune)")
 ASSUMPTIONS = [
     "chrono 0.4.40's RFC 3339 and %Y-%m-%d parsers are modelled by hand at byte level (ASCII whitespace only); the tie is the differential run",
     "named time zones (chrono-tz) are not modelled",
@@ -17,17 +27,20 @@ ASSUMPTIONS = [
 ]
 TRUSTED = [
     "Coq 8.16.1 kernel + coqc; vm_compute for closed witnesses; no native_compute",
-    "translator tools/gen_params.py (digit bands, divisors and the division operator of normalize_integer_epoch are read from src/shared/time.rs)",
-    "extraction: ExtrOcamlBasic only; ocaml/driver.ml, conv.ml, p_time.ml (parsing/printing)",
-    "correspondence harness /verif/harness (vharn fn time_str/time_json) built against /repo with --cfg sneldb_verif",
-    "python oracle: datetime arithmetic of CPython (independent of model and implementation)",
+    "translator tools/gen_params.py (digit bands, divisors and the division operator of normalize_integer_epoch are read from src/shared/time.rs; "
+    "p11_timesites.py: bucket sizes, u32 truncation of bucket ids, the calendar guard of temporal_builder.rs and the literal handling of temporal_pruner.rs)",
+    "extraction: ExtrOcamlBasic only; ocaml/driver.ml, conv.ml, p_time.ml, p_tsite.ml (parsing/printing)",
+    "correspondence harness /verif/harness (vharn fn time_str/time_json, tsite_*) built against /repo with --cfg sneldb_verif; "
+    "condition builders are observed through their Debug rendering (private fields)",
+    "python oracle: datetime arithmetic of CPython (independent of model and implementation); for the pruner: brute-force "
+    "comparison of every stamp of every zone with the literal's instant",
 ]
 
 CLAIMED = True
 MANIFEST = {
- "level_text": "Theorems (all instants, no bound): every in-band integer spelling (s/ms/us/ns) of an instant normalises to the floor of the instant, 20+ digit magnitudes are rejected. The division operator and digit bands of the model are regenerated from src/shared/time.rs on every run, and the model's TimeParser (RFC 3339, date-only, numeric strings, JSON numbers) is run against the real TimeParser on generated and mutated spellings.",
+ "level_text": "Theorems (all instants, no bound unless stated): every in-band integer spelling (s/ms/us/ns) of an instant normalises to the floor of the instant and 20+ digit magnitudes are rejected; Hinnant's calendar algorithms are mutually inverse on all of Z (one 400-year cycle checked exhaustively by the kernel, extended by the shift lemmas); the model of chrono's RFC 3339 parser inverts the printer, hence EVERY ISO spelling (any offset |off| <= 23:59 written Z/z/+HH:MM/-HH:MM/U+2212, any fraction digits, separator T/t/space, surrounding white space) of an instant in years 0000..9999 parses to the floor of the instant, and agrees with the integer spellings; date-only spellings give midnight UTC. Call sites (payload normaliser, WHERE rows, SINCE rows, planner literal rewriting, zone pruner, materialised-query SINCE) read every literal as the same second (sites_agree), and the zone pruner over the artifacts of the temporal builder keeps every zone holding a matching event when literal and stamps lie in [0, 2^32) (prune_sound_outside_known); five classes outside that are refuted with witnesses and reported as known findings. The digit bands / division operator are regenerated from src/shared/time.rs; the model of TimeParser and of the six call sites is run against the real code (TimeParser, PayloadTimeNormalizer, ConditionEvaluatorBuilder, QueryPlan + FilterGroupBuilder::build_all, TemporalIndexBuilder + TemporalPruner, MaterializedQuerySpecExt::delta_command) on generated and mutated spellings.",
  "design_ref": "DESIGN.md \u00a76 C16",
- "level_note": "Trusted: Coq kernel; tools/gen_params.py; ExtrOcamlBasic extraction + OCaml driver; the Rust harness; CPython datetime (oracle). chrono's parsers are modelled by hand (differentially tested, not proved); named time zones not modelled."
+ "level_note": "Trusted: Coq kernel (vm_compute for the exhaustive 400-year cycle and closed witnesses); tools/gen_params.py; ExtrOcamlBasic extraction + OCaml driver; the Rust harness (condition builders observed through Debug); CPython datetime (oracle). chrono's parsers are modelled by hand (differentially tested, not proved); the printer theorems cover four-digit years; named time zones, PER bucketing and the engine-level row selection are not modelled."
 }
 
 EPOCH = datetime.datetime(1970, 1, 1)
@@ -149,37 +162,441 @@ def cases(rng, tier):
             else:
                 s = s[:pos] + s[pos:pos + 2] + s[pos:]
         add("malformed", f"time_str {rng.choice(['dt', 'd'])} {hx(s)}", None, s)
+    site_cases(rng.fork("sites"), tier, add, out)
+    out.extend(engine_cases(rng.fork("engine"), tier))
     return out
 
 
+
+# ---------------------------------------------------------------- call sites ("the same instant on every path")
+OPS = ["eq", "gt", "gte", "lt", "lte"]
+U32 = 2 ** 32
+
+
+def _cmp(op, t, v):
+    return {"eq": t == v, "gt": t > v, "gte": t >= v, "lt": t < v, "lte": t <= v, "neq": t != v}[op]
+
+
+def literal_for(t, nanos, rng):
+    """(literal string, expected second or None) — a random spelling of the instant."""
+    r = rng.below(10)
+    if r < 5:
+        return iso(t, nanos, rng), t
+    if r < 6 and t % 86400 == 0:
+        d = EPOCH + datetime.timedelta(seconds=t)
+        return f"{d.year:04d}-{d.month:02d}-{d.day:02d}", t
+    unit, mul = rng.choice([("s", 1), ("s", 1), ("ms", 10 ** 3), ("us", 10 ** 6), ("ns", 10 ** 9)])
+    n = t * mul + nanos // (10 ** 9 // mul)
+    return str(n), (t if band(n) == unit else None)
+
+
+def zones_around(v, rng):
+    """1..5 zones of 1..4 stamps each; in-calendar zones span at most ~40 days (the calendar loops per hour)."""
+    zs = []
+    for zid in range(rng.range(1, 5)):
+        anchor = rng.choice([v, v, v, 0, 0, U32, rng.range(0, 5 * 10 ** 9), -rng.range(1, 10 ** 6)])
+        if anchor is None:
+            anchor = 0
+        spread = rng.choice([0, 1, 59, 3600, 86400, 40 * 86400])
+        stamps = []
+        for _ in range(rng.range(1, 4)):
+            off = rng.choice([0, 0, 1, -1, rng.range(-spread, spread) if spread else 0])
+            stamps.append(anchor + off)
+        if rng.chance(1, 12) and max(stamps) <= 10 ** 8:
+            stamps.append(-rng.range(1, 100))           # a pre-epoch straggler (range kept short: the calendar loops per hour)
+        zs.append([zid, stamps])
+    return zs
+
+
+def site_cases(rng, tier, add, out):
+    n = 300 if tier == "quick" else 20000
+    lo = -62135596800 + 2 * 86400
+    hi = 253402300799 - 2 * 86400
+    edges = [0, -1, 1, -86400, 86399, U32 - 1, U32, U32 + 86400, 2 ** 31, 10 ** 11 - 1, -100000001, 1700000000, lo, hi]
+    ftypes = ["dt", "d", "odt", "od"]
+    for k in range(n):
+        r = rng.below(10)
+        if r < 2:
+            t = rng.choice(edges)
+        elif r < 6:
+            t = rng.range(-10 ** 6, 5 * 10 ** 9)
+        elif r < 7:
+            t = rng.range(lo, hi)
+        else:
+            t = rng.range(0, 4 * 10 ** 9)
+        nanos = rng.choice([0, 0, 500000000, rng.below(10 ** 9)])
+        # -- every site on the same literal
+        for _ in range(2):
+            lit, exp = literal_for(t, nanos, rng)
+            if rng.chance(1, 5):
+                lit = rng.choice([" ", "\t", ""]) + lit + rng.choice([" ", "\n", ""])
+            add("site_all", f"tsite_all {hx(lit)}", exp, lit)
+        # -- one site, JSON-typed values
+        lit, exp = literal_for(t, nanos, rng)
+        ft = rng.choice(ftypes)
+        js = json.dumps(lit, ensure_ascii=False)
+        out.append({"kind": "site_payload", "line": f"tsite_payload {ft} {hx(js)}", "expect": None, "show": f"{ft} {js}",
+                    "expect_out": None if exp is None else f"S {exp}"})
+        out.append({"kind": "site_filter", "line": f"tsite_filter {ft} {hx(js)}", "expect": None, "show": f"{ft} {js}",
+                    "expect_out": None if exp is None else f"I {exp}"})
+        out.append({"kind": "site_since", "line": f"tsite_since {hx(lit)}", "expect": None, "show": lit,
+                    "expect_out": None if exp is None else f"NUM {exp} | U {hx(lit)}"})
+        if rng.chance(1, 2):
+            # JSON numbers: payload normalises by band; WHERE / planner take epoch seconds as they are
+            mul = rng.choice([1, 1, 10 ** 3, 10 ** 6, 10 ** 9])
+            nnum = t * mul
+            if -2 ** 63 <= nnum < 2 ** 63:
+                unit = {1: "s", 10 ** 3: "ms", 10 ** 6: "us", 10 ** 9: "ns"}[mul]
+                out.append({"kind": "site_payload_num", "line": f"tsite_payload {ft} {hx(str(nnum))}", "expect": None,
+                            "show": f"{ft} {nnum}", "expect_out": f"S {t}" if band(nnum) == unit else None})
+                out.append({"kind": "site_where_num", "line": f"tsite_where {hx(str(nnum))}", "expect": None,
+                            "show": str(nnum), "expect_out": f"NUM {nnum}"})
+                out.append({"kind": "site_filter_num", "line": f"tsite_filter {ft} {hx(str(nnum))}", "expect": None,
+                            "show": f"{ft} {nnum}", "expect_out": f"I {nnum}"})
+        if rng.chance(1, 6):
+            j = rng.choice(["null", "true", "false", "[1]", "{}", "1.5", "-0.25", "1e3", "18446744073709551615",
+                            "9223372036854775808", json.dumps("abc"), json.dumps(""), json.dumps("12:00")])
+            opt = ft in ("odt", "od")
+            eo = None
+            if j == "null":
+                eo = "NULL" if opt else "E"
+            elif j in ("true", "false", "[1]", "{}", '"abc"', '""', '"12:00"'):
+                eo = "E"
+            out.append({"kind": "site_payload_other", "line": f"tsite_payload {ft} {hx(j)}", "expect": None, "show": f"{ft} {j}", "expect_out": eo})
+            out.append({"kind": "site_payload_other", "line": f"tsite_payload str {hx(j)}", "expect": None, "show": f"str {j}", "expect_out": None})
+            out.append({"kind": "site_where_other", "line": f"tsite_where {hx(j)}", "expect": None, "show": j, "expect_out": None})
+            out.append({"kind": "site_filter_other", "line": f"tsite_filter {rng.choice(ftypes + ['str'])} {hx(j)}", "expect": None, "show": j, "expect_out": None})
+            out.append({"kind": "site_payload_other", "line": f"tsite_payload {ft} -", "expect": None, "show": f"{ft} absent", "expect_out": "A"})
+        # -- the zone pruner over the real temporal artifacts
+        for _ in range(2):
+            lit, exp = literal_for(t, nanos, rng)
+            col = "t"
+            zones = zones_around(exp if exp is not None else t, rng)
+            if rng.chance(1, 6):
+                col = "timestamp"
+                zones = [[z, [x for x in st if x >= 0] or [0]] for z, st in zones]   # core timestamps are u64
+            op = rng.choice(OPS + OPS + ["neq"])
+            if rng.chance(1, 4) and exp is not None and -2 ** 63 <= exp < 2 ** 63:
+                kind_, l2, v = "i", str(exp), exp          # the literal after the planner's rewriting
+            else:
+                kind_, l2, v = "s", lit, exp
+            ztxt = ";".join(f"{z}:{','.join(str(x) for x in st)}" for z, st in zones)
+            out.append({"kind": "site_prune", "line": f"tsite_prune {col} {op} {kind_} {hx(l2)} {ztxt}", "expect": None,
+                        "show": f"{col} {op} {l2!r} zones={ztxt}", "op": op, "v": v, "zones": zones, "since_sem": False, "lit": l2})
+        if rng.chance(1, 8):
+            # SINCE with a literal that no site can parse: the row filter ignores it, so every zone must stay
+            bad = rng.choice(["abc", "", "10000000000000000000", "18446744073709551615", "18446744073709551616", "12:00", "2024-13-01"])
+            zones = zones_around(t, rng)
+            ztxt = ";".join(f"{z}:{','.join(str(x) for x in st)}" for z, st in zones)
+            out.append({"kind": "site_prune_since", "line": f"tsite_prune t gte s {hx(bad)} {ztxt}", "expect": None,
+                        "show": f"SINCE {bad!r} zones={ztxt}", "op": "gte", "v": None, "zones": zones, "since_sem": True, "lit": bad})
+            add("site_all", f"tsite_all {hx(bad)}", None, bad)
+        # -- materialised query delta
+        if rng.chance(1, 3):
+            lit, exp = literal_for(t, nanos, rng)
+            base_ = exp if exp is not None else t
+            wm = max(0, rng.choice([base_ - 1, base_, base_ + 1, 0, 1, rng.range(0, 5 * 10 ** 9)]))
+            eid = rng.choice([0, 7])
+            out.append({"kind": "site_matspec", "line": f"tsite_matspec {hx(lit)} {wm} {eid}", "expect": None,
+                        "show": f"since={lit!r} watermark=({wm},{eid})", "v": exp, "wm": wm, "eid": eid, "lit": lit})
+
+
+
+# ---------------------------------------------------------------- engine level: WHERE / SINCE selection over spellings
+SQL_OP = {"eq": "=", "neq": "!=", "gt": ">", "gte": ">=", "lt": "<", "lte": "<="}
+FINDINGS_DS = [(1, -100), (2, -50), (3, 0), (4, 0), (5, 10), (6, 259200), (7, 4295399296), (8, 4295399297), (9, -5), (10, 500)]
+
+
+def _eng_query(op, lit, quoted, since):
+    if since:
+        return f'QUERY ev SINCE "{lit}" USING t'
+    return f'QUERY ev WHERE t {SQL_OP[op]} ' + (f'"{lit}"' if quoted else lit)
+
+
+def engine_cases(rng, tier):
+    """Two lifetimes of the real engine (DEFINE ev {k:int, t:datetime}; STORE; query from memory; FLUSH; query the
+    segment; zones of 2 events in store order).  `clean`: stamps and literals in [0, 2^32), operators = > >= < <= and
+    SINCE — must be exact in both phases.  `findings`: the minimal data set of the known classes."""
+    out = []
+
+    def add(ds, events, op, lit, v, quoted=True, since=False):
+        q = _eng_query(op, lit, quoted, since)
+        for phase in ("mem", "seg"):
+            out.append({"kind": "engine_sel", "line": f"engine {ds} {phase} {hx(q)}", "expect": None, "show": f"[{ds}/{phase}] {q}",
+                        "ds": ds, "events": events, "phase": phase, "q": q, "op": "gte" if since else op, "v": v,
+                        "since_sem": since, "lit": lit})
+    # clean data set
+    base_t = rng.range(10 ** 9, 4 * 10 ** 9)
+    ev = []
+    for k in range(1, 9):
+        ev.append((k, max(0, min(U32 - 1, base_t + rng.choice([0, 0, 1, -1, 3600, -86400, rng.range(-10 ** 6, 10 ** 6)])))))
+    nq = 6 if tier == "quick" else 40
+    for _ in range(nq):
+        t = rng.choice([x for _, x in ev]) + rng.choice([0, 0, 1, -1])
+        t = max(0, min(U32 - 1, t))
+        lit, exp = literal_for(t, rng.choice([0, 500000000]), rng)
+        if exp is None or any(ord(ch) > 127 for ch in lit):
+            lit, exp = str(t), t
+        op = rng.choice(OPS)
+        add("clean", ev, op, lit, exp)
+        if rng.chance(1, 2):
+            add("clean", ev, op, str(t), t, quoted=False)
+        if rng.chance(1, 2):
+            add("clean", ev, "gte", lit, exp, since=True)
+    # the known classes, minimal
+    f = FINDINGS_DS
+    add("findings", f, "eq", "500", 500, quoted=False)                       # PreEpochZoneNotInCalendar
+    add("findings", f, "gte", "1970-01-01T00:00:00Z", 0)                      # PreEpochZoneNotInCalendar (k=10)
+    add("findings", f, "gt", "1969-12-31T23:59:59Z", -1)                      # NegativeInstantClampedByPruner / PreEpoch
+    add("findings", f, "eq", "1969-12-31T23:59:10Z", -50)
+    add("findings", f, "gte", "1980-01-01T00:00:00Z", 315532800)              # CalendarBucketWrapsAfter2106
+    add("findings", f, "neq", "500", 500, quoted=False)                       # TemporalNeqPrunesAllZones
+    add("findings", f, "gte", "10000000000000000000", None, since=True)       # UnparsableSinceU64WrapsNegative
+    add("findings", f, "gte", "1970-01-02T00:00:00Z", 86400)                  # fine
+    return out
+
+
+def run_engine_cases(cases_):
+    """impl output of every engine case: 'R k,k,...' (sorted) or 'ERR ...'."""
+    import engine
+    res = {}
+    by_ds = {}
+    for i, c in enumerate(cases_):
+        by_ds.setdefault(c["ds"], []).append(i)
+    for ds, idx in by_ds.items():
+        e = engine.Engine(event_per_zone=2, fill_factor=100)
+        try:
+            e.start()
+            e.cmd('DEFINE ev FIELDS { k: "int", t: "datetime" }')
+            for k, t in cases_[idx[0]]["events"]:
+                e.cmd('STORE ev FOR c1 PAYLOAD {"k": %d, "t": %d}' % (k, t))
+
+            def ask(q):
+                r = e.rows(q)
+                if r["status"] != 200:
+                    return f"ERR {r['status']}"
+                ks = sorted(int(x["k"]) for x in r["rows"] if isinstance(x, dict) and x.get("k") is not None)
+                return "R " + (",".join(str(k) for k in ks) if ks else "-")
+            for i in idx:
+                if cases_[i]["phase"] == "mem":
+                    res[i] = ask(cases_[i]["q"])
+            e.cmd("FLUSH")
+            e.cmd("!flushwait")
+            e.cmd("!wal_drained 3000")
+            e.cmd("!sleep 5")
+            for i in idx:
+                if cases_[i]["phase"] == "seg":
+                    res[i] = ask(cases_[i]["q"])
+        except Exception as ex:
+            for i in idx:
+                res.setdefault(i, f"ABORT")
+        finally:
+            e.destroy()
+    return [res[i] for i in range(len(cases_))]
+
+
 def run_sides(cases_, model_ok):
-    return base.run_sides_fn(cases_, model_ok)
+    fn_idx = [i for i, c in enumerate(cases_) if c.get("kind") != "engine_sel"]
+    en_idx = [i for i, c in enumerate(cases_) if c.get("kind") == "engine_sel"]
+    impl, model = [None] * len(cases_), [None] * len(cases_)
+    fi, fm = base.run_sides_fn([cases_[i] for i in fn_idx], model_ok)
+    for j, i in enumerate(fn_idx):
+        impl[i], model[i] = fi[j], fm[j]
+    if en_idx:
+        ei = run_engine_cases([cases_[i] for i in en_idx])
+        for j, i in enumerate(en_idx):
+            impl[i] = ei[j]
+    return impl, model
 
 
 def same(c, impl, model):
+    if c.get("kind") == "engine_sel":
+        return True        # engine-level selection is checked by the oracle only (not modelled)
     return impl == model
 
 
+def _zone_set(impl):
+    if impl is None or impl == "NONE" or impl == "Z -":
+        return set()
+    if impl.startswith("Z "):
+        return set(int(x) for x in impl[2:].split(","))
+    return None
+
+
+def _lost_zones(c, impl):
+    """Zones holding a stamp that satisfies the comparison but missing from the pruner's answer
+    (an answer of NONE makes the field selector return no zone at all)."""
+    got = _zone_set(impl)
+    if got is None:
+        return None
+    op, v = c["op"], c["v"]
+    if v is None:
+        if not c.get("since_sem"):
+            return []
+        truth = [z for z, st in c["zones"]]                 # ignored SINCE: every row matches
+    else:
+        truth = [z for z, st in c["zones"] if any(_cmp(op, x, v) for x in st)]
+    return [z for z in truth if z not in got]
+
+
+def _site_all_fields(impl):
+    try:
+        return dict(f.split("=", 1) for f in impl.split(";"))
+    except Exception:
+        return None
+
+
+def _num(tok, tags):
+    p = tok.split(" ")
+    if len(p) == 2 and p[0] in tags:
+        try:
+            return int(p[1])
+        except ValueError:
+            return None
+    return None
+
+
 def oracle(c, impl):
-    """Direct property oracle: a spelling of instant t that lies in its band must be stored as floor(t)."""
+    """Direct property oracle: a spelling of instant t that lies in its band must be stored as floor(t);
+    every call site must read a literal as the same second; the zone pruner must keep every zone that
+    holds an event whose stored instant satisfies the comparison."""
+    kind = c.get("kind", "")
+    if impl in ("PANIC", "ABORT"):
+        return f"implementation {impl} on {c.get('show')!r}"
+    if kind == "site_all":
+        f = _site_all_fields(impl)
+        if not f or set(f) != {"PDT", "PD", "W", "SN", "F", "PR"}:
+            return f"unreadable site report {impl!r}"
+        vals = [_num(f["PDT"], ("S",)), _num(f["PD"], ("S",)), _num(f["W"], ("NUM",)), _num(f["SN"], ("NUM",)), _num(f["F"], ("I",))]
+        if all(v is None for v in vals):
+            rejected = f["PDT"] == "E" and f["PD"] == "E" and f["W"] == "STR" and f["SN"] == "IGN" and f["F"].startswith("U")
+            if not rejected:
+                return f"sites disagree on the unparsable literal {c.get('show')!r}: {impl}"
+            if c.get("expect") is not None:
+                return f"every site rejected the spelling {c.get('show')!r} of second {c['expect']}"
+            return None
+        if any(v is None for v in vals) or len(set(vals)) != 1:
+            return f"sites disagree on the literal {c.get('show')!r}: {impl}"
+        v = vals[0]
+        if c.get("expect") is not None and v != c["expect"]:
+            return f"spelling {c.get('show')!r} of second {c['expect']} was read as {v} by every site"
+        if f["PR"] != str(v):
+            return f"the zone pruner looks up instant {f['PR']} for the literal {c.get('show')!r} that every other site reads as {v}"
+        return None
+    if kind in ("site_prune", "site_prune_since"):
+        lost = _lost_zones(c, impl)
+        if lost is None:
+            return f"unreadable pruner answer {impl!r}"
+        if lost:
+            return (f"the pruner answered {impl} and so drops zone(s) {lost} that hold events satisfying "
+                    f"{c['op']} {c['lit']!r} (= second {c['v']}): {c.get('show')}")
+        return None
+    if kind == "engine_sel":
+        if not impl or not impl.startswith("R "):
+            return f"engine answered {impl} to {c.get('show')}"
+        got = set() if impl == "R -" else set(int(x) for x in impl[2:].split(","))
+        if c["v"] is None:
+            truth = set(k for k, _ in c["events"])          # SINCE that no site parses is ignored: every row
+        else:
+            truth = set(k for k, t in c["events"] if _cmp(c["op"], t, c["v"]))
+        if got != truth:
+            return (f"{c.get('show')} returned events k={sorted(got)}, the stored instants satisfying the comparison "
+                    f"with second {c['v']} are k={sorted(truth)} (missing {sorted(truth - got)}, extra {sorted(got - truth)})")
+        return None
+    if kind == "site_matspec":
+        v, wm, eid = c["v"], c["wm"], c["eid"]
+        if v is None or (wm == 0 and v < 0):
+            return None
+        keep_tok = "S " + hx(c["lit"])
+        upd_tok = "S " + hx(str(wm))
+        if wm == 0 and eid == 0:
+            want = keep_tok
+        else:
+            want = upd_tok if v < wm else keep_tok
+        if impl != want and not (keep_tok == upd_tok):
+            return f"delta command of SINCE {c['lit']!r} (second {v}) with watermark {wm} has SINCE {impl}, expected {want}"
+        return None
+    if "expect_out" in c:
+        eo = c["expect_out"]
+        if eo is not None and impl != eo:
+            return f"{c['line'].split(' ')[0]} on {c.get('show')!r} gave {impl}, the property requires {eo}"
+        return None
     exp = c.get("expect")
     if exp is None:
-        if impl in ("PANIC", "ABORT"):
-            return f"implementation {impl} on {c.get('show')!r}"
         return None
     if impl != f"S {exp}":
         return f"spelling {c.get('show')!r} of the instant with floor second {exp} was normalised to {impl}"
     return None
 
 
+def _u64(lit):
+    s = lit[1:] if lit.startswith("+") and len(lit) > 1 else lit
+    if s.isascii() and s.isdigit() and int(s) < 2 ** 64:
+        return int(s)
+    return None
+
+
 def classify(c, impl):
+    kind = c.get("kind", "")
     # a JSON integer literal below i64::MIN is kept by serde_json as f64 and then read as float SECONDS
-    if c.get("kind", "").startswith("jint") and int(c["show"]) < -2 ** 63:
+    if kind.startswith("jint") and int(c["show"]) < -2 ** 63:
         return "JsonIntegerBelowI64ReadAsFloatSeconds"
+    if kind == "site_all":
+        f = _site_all_fields(impl) or {}
+        v = _num(f.get("PDT", ""), ("S",))
+        if v is not None and v < 0 and f.get("PR") == "0":
+            return "NegativeInstantClampedByPruner"
+        return None
+    if kind == "engine_sel":
+        if c["phase"] != "seg" or not impl or not impl.startswith("R "):
+            return None                                      # rows in memory must be exact
+        got = set() if impl == "R -" else set(int(x) for x in impl[2:].split(","))
+        tof = dict(c["events"])
+        truth = set(tof) if c["v"] is None else set(k for k, t in c["events"] if _cmp(c["op"], t, c["v"]))
+        if got - truth:
+            return None                                      # extra rows are never a known class
+        # zones of two events in store order
+        zone_of = {k: [x for _, x in c["events"][(i // 2) * 2:(i // 2) * 2 + 2]] for i, (k, _) in enumerate(c["events"])}
+        lost = truth - got
+        if c["op"] == "neq":
+            return "TemporalNeqPrunesAllZones"
+        if c["v"] is None:
+            u = _u64(c["lit"])
+            return "UnparsableSinceU64WrapsNegative" if u is not None and u >= 2 ** 63 else None
+        if lost and all(any(x < 0 for x in zone_of[k]) for k in lost):
+            return "PreEpochZoneNotInCalendar"
+        if c["v"] < 0:
+            return "NegativeInstantClampedByPruner"
+        if c["v"] >= U32 or any(x >= U32 for k in lost for x in zone_of[k]):
+            return "CalendarBucketWrapsAfter2106"
+        return None
+    if kind in ("site_prune", "site_prune_since"):
+        lost = _lost_zones(c, impl) or []
+        stamps = {z: st for z, st in c["zones"]}
+        if c["op"] == "neq":
+            return "TemporalNeqPrunesAllZones"
+        if c["v"] is None:
+            u = _u64(c["lit"])
+            if u is not None and u >= 2 ** 63:
+                return "UnparsableSinceU64WrapsNegative"
+        if lost and all(any(x < 0 for x in stamps[z]) for z in lost):
+            return "PreEpochZoneNotInCalendar"
+        if c["v"] is not None and c["v"] < 0:
+            return "NegativeInstantClampedByPruner"
+        if (c["v"] is not None and c["v"] >= U32) or any(x >= U32 for z in lost for x in stamps[z]):
+            return "CalendarBucketWrapsAfter2106"
+        return None
     return None
 
 
 def nontrivial_key(c, impl):
+    kind = c.get("kind", "")
+    if kind == "engine_sel":
+        return (kind, c["phase"], c["q"], impl) if impl and impl.startswith("R ") and impl != "R -" else None
+    if kind.startswith("site_"):
+        if impl and impl not in ("NONE", "E", "N", "PANIC", "ABORT", "UNKNOWN_PROBE") and not impl.startswith("PDT=E"):
+            return (kind, c.get("op"), impl[:80])
+        return None
     if impl and impl.startswith("S "):
         return (c["kind"], impl)
     return None
